@@ -863,4 +863,11 @@ theorem root_law (hsq : ∀ x : K, 0 ≤ x → sqrt x * sqrt x = x) {xi0 xi1 : R
   · simp only [C.smul_left, h0n]; ring
   · simp only [C.smul_left, h1n]; ring
 
+/-- **tie of the root to the regenerated constructor**: on coefficient vectors the root value assumed by `root_law` is what the traced
+`BrownianInterval.__init__` computes from its two noise draws, coordinate by coordinate (`T = t1 - t0`). -/
+theorem root_coordinatewise {ι : Type} (xi0 xi1 : ι → K) (t0 t1 : K) (i : ι) :
+    (sqrt (t1 - t0) • xi0) i = Gen.root_init_W sqrt t0 t1 (xi0 i) (xi1 i) ∧
+    (sqrt ((t1 - t0) / 12) • xi1) i = Gen.root_init_H sqrt t0 t1 (xi0 i) (xi1 i) := by
+  simp [Gen.root_init_W, Gen.root_init_H, mul_comm]
+
 end C04Model
